@@ -323,6 +323,7 @@ static Obj *new_gvar(char *name, Type *ty) {
   var->next = globals;
   var->is_static = true;
   var->is_definition = true;
+  var->owner = current_fn;
   globals = var;
   return var;
 }
